@@ -111,6 +111,19 @@ def actions(prog, f, cont, events, ev):
     return acts
 
 
+def clone_of_arg0(f, R, rendered):
+    """`std::move(local:x)` / `local:x` where x is a default-constructed local whose only mutation is x.add(arg0): stands for arg0"""
+    m = re.match(r'^(?:std::move\()?local:(\w+)\)?$', rendered)
+    if not m:
+        return rendered
+    name = m.group(1)
+    adds = [c for c in f.calls() if c['callee']['name'] == 'add' and c.get('obj') is not None and f.nodes[f.strip(c['obj'], 'all')].get('decl', {}).get('name') == name]
+    muts = [c for c in f.calls() if c.get('obj') is not None and f.nodes[f.strip(c['obj'], 'all')].get('decl', {}).get('name') == name and not c['callee'].get('const') and c['callee']['name'] != 'add']
+    if len(adds) == 1 and not muts and len(f.call_args(adds[0])) == 1 and R.render(f.call_args(adds[0])[0]) == 'arg0':
+        return 'arg0'
+    return rendered
+
+
 def check_setter(prog, res, f, cont, el):
     inst = f.sig.split('(')[0].split('::')[-2] + '::' + f.name
     rows = 0
@@ -134,6 +147,8 @@ def check_setter(prog, res, f, cont, el):
                 continue
             ev = a7.Evaluator(f, model)
             acts = actions(prog, f, cont, events, ev)
+            Rq2 = Renderer(f)
+            acts = [tuple(clone_of_arg0(f, Rq2, x) if isinstance(x, str) and 'local:' in x else x for x in a_) for a_ in acts]
             if idx == SIZE_MAX:
                 want = [[('append', 'arg0')], [('resize', size + 1), ('store', 'back', 'arg0')], [('resize', size + 1), ('store', size, 'arg0')]]
                 why = 'append'
